@@ -154,6 +154,9 @@ def replay(prop, path):
         if o[0] == "new":
           insts[o[1]] = getattr(mod, o[2])()
           ops.append(["new", o[1], o[2], "", 0, "ok"])
+        elif o[0] == "copy":
+          insts[o[1]] = tsadrive.make_copy(insts[o[6]], False)
+          ops.append(["copy", o[1], o[2], "", 0, "ok", o[6], ""])
         elif o[0] == "set":
           setattr(insts[o[1]], o[3], o[4])
           ops.append(["set", o[1], o[2], o[3], o[4], "ok"])
